@@ -45,7 +45,20 @@ def check(ctx: Ctx, rep: Report, thorough: bool = False):
         rep.analysed_add("space", "%s: %d (configuration, state after read_device_info) pairs" % (famname, len(seen_states)))
         optional = optional_commands(fam)
         rep.analysed_add("optional_blocks", "%s: %s" % (famname, sorted(optional)))
-        for (ck, sk), (cfg, st) in seen_states.items():
+        # close the state set under read_runtime_data (successful or failed calls leave new states behind)
+        work = list(seen_states.items())
+        closed: Dict = {}
+        while work:
+            k, (cfg, st) = work.pop()
+            if k in closed:
+                continue
+            closed[k] = (cfg, st)
+            for oc in fam.replay("read_runtime_data", st, cfg):
+                k2 = (runtime_cfg_key(fam, cfg), project(fam, oc.state))
+                if k2 not in closed:
+                    work.append((k2, (cfg, oc.state)))
+        rep.analysed_add("space", "%s: %d states after closing under repeated read_runtime_data calls" % (famname, len(closed)))
+        for (ck, sk), (cfg, st) in closed.items():
             total_states += 1
             # ---- R1: free exploration (every oracle choice)
             bad = None
